@@ -6,8 +6,8 @@ import ast
 from sa.astx import dotted, src
 from sa.selftest import Mutant, Silent
 from sa.source import AnalysisError
-from sa.props._lib_a import (DEFER, Q, CallGraph, ICModel, RunShape, group, avoiding_path, call_nodes, calls_of, guarded_by_any,
-                             aliases, is_const, is_name, known_bool, method_call, params, stmt_nodes, sub0, succ_on, targets_values)
+from sa.props._lib_a import (DEFER, Q, CallGraph, ChainWalk, ICModel, RunShape, group, avoiding_path, call_nodes, calls_of, guarded_by_any, nodes_of, value_aliases,
+                             aliases, is_const, is_name, known_bool, params, stmt_nodes, sub0, succ_on, targets_values)
 
 PROPERTY = "C02"
 TECHNIQUE = "intra-module call graph no-re-entry + finite-state cell propagation over the CFG"
@@ -175,27 +175,29 @@ def _check_run_calls(ctx, cg, S, back):
 
 
 def _check_iterative(ctx, S):
-    """the hand-over is iterative: the waiting Deferred is pushed on the stack the loop reads"""
+    """The hand-over is iterative: decided by the symbolic walk of one round of the outer loop (ChainWalk) - after the _CONTINUE
+    hand-over the *same frame* starts its next round with the waiting Deferred on top of the logical chain stack (explicit list plus,
+    where used, a separately kept current Deferred) and the current one right below it."""
     g, q = S.g, S.q
-    chain, chainee = S.chain, S.chainee
-    ctx.check(chain is not None, "iterative/loop-over-chain-stack", q + " | <explicit chain stack>",
-              "_runCallbacks has no explicit stack of Deferreds from which the current one is taken: a _CONTINUE hand-over can only be "
-              "processed by a nested call, one frame per chained Deferred")
-    pushes = call_nodes(g, lambda c: chain is not None and method_call(c, "append", chain) and len(c.args) == 1 and is_name(c.args[0], chainee))
+    W = ChainWalk(S)
+    if W.ambiguous:
+        raise AnalysisError("C02: several candidate chain stacks in Deferred._runCallbacks")
+    ctx.check(W.stack_var is not None, "iterative/loop-over-chain-stack", q + " | <explicit chain stack>",
+              "_runCallbacks has no explicit stack of Deferreds: a _CONTINUE hand-over can only be processed by a nested call, one frame per "
+              "chained Deferred")
     cont_T = [d for t in S.cont_tests for d, l in g.succ[t] if l in ("T", "F") and S._cont_fact(g.node(t).ast, l == "T") is True]
     ctx.check(bool(cont_T), "iterative/handover-uses-chain-stack", q + " | <_CONTINUE marker recognised>",
               "the _CONTINUE marker is no longer recognised: chained Deferreds are resumed some other way")
-    wit = avoiding_path(g, cont_T, set(S.pops) | set(S.binds) | {g.exit}, pushes, strict=False) if cont_T else None
-    ctx.check(bool(pushes) and wit is None, "iterative/handover-uses-chain-stack", q + " | <_CONTINUE branch>",
-              "the waiting Deferred is not pushed on the explicit chain stack on some path of the hand-over", witness=g.describe(wit))
-    loops = [n.id for n in g.nodes if n.kind == "join" and n.note == "while" and g.reachable(n.id)]
-    outer = [h for h in loops if chain is not None and any(t.kind == "test" and any(is_name(x, chain) for x in ast.walk(t.ast))
-                                                           for t in (g.node(d) for d, _ in g.succ[h]) if t.ast is not None)]
-    ctx.check(bool(outer), "iterative/loop-over-chain-stack", q + " | <while chain>",
-              "_runCallbacks no longer loops while the chain stack is non-empty")
-    for p in pushes:
-        ctx.check(any(g.path([p], [h], strict=True) for h in outer), "iterative/loop-over-chain-stack", ctx.construct(q, g.node(p).ast),
-                  "after the push the loop that reads the chain stack is not re-entered")
+    if W.stack_var is not None:
+        ctx.check(W.checkpoint is not None and W.mode is not None, "iterative/loop-over-chain-stack", q + " | <outer loop over the chain stack>",
+                  "_runCallbacks no longer has an outer loop that takes its current Deferred from the chain stack round after round")
+        hand = [(okv, obs, path) for kind, okv, obs, path in W.verdicts() if kind == "handover"]
+        ctx.check(bool(hand), "iterative/handover-uses-chain-stack", q + " | <_CONTINUE branch>",
+                  "no path of the hand-over comes back to the outer loop: the waiting Deferred is not processed by this frame")
+        for okv, obs, path in hand:
+            ctx.check(okv, "iterative/handover-uses-chain-stack", q + " | <_CONTINUE branch>",
+                      "after the hand-over the waiting Deferred is not what the same loop processes next (it is not put on top of the chain "
+                      f"stack): {obs}", detail=obs, witness="" if okv else g.describe(path))
     # waiting for a returned Deferred: raw append of the continuation
     for r in S.regs:
         call = calls_of(g, r, S._is_reg)[0]
@@ -252,7 +254,10 @@ def _check_helper(ctx, M, name, H, k):
     Wp = hp[k]
     # (i) helper: the re-entry is on the false branch of `waiting[0]`
     Wa, Ra = aliases(H, Wp), aliases(H, hp[0])
-    hcell = lambda e: any(sub0(e, w, 0) for w in Wa)
+    reads_cell = lambda e: any(sub0(e, w, 0) for w in Wa)
+    writers = stmt_nodes(hg, lambda st: any(reads_cell(t) for t, _ in targets_values(st))) + call_nodes(hg, lambda c: is_name(c.func, IC))
+    temps = value_aliases(hg, reads_cell, writers)       # `armed = waiting[0]` ... `if armed:`
+    hcell = lambda e: reads_cell(e) or (isinstance(e, ast.Name) and e.id in temps)
     recalls = call_nodes(hg, lambda c: is_name(c.func, IC))
     ctx.check(bool(recalls), "inline/helper-resumes", hq, "the helper never resumes the generator")
     for n in recalls:
@@ -261,7 +266,7 @@ def _check_helper(ctx, M, name, H, k):
                   "the stack: one frame per already-fired Deferred awaited (RecursionError after ~1000 awaits)")
     htests = [t.id for t in hg.nodes if t.kind == "test" and hg.reachable(t.id) and hcell(t.ast)]
     ctx.check(bool(htests), "inline/helper-tests-cell", hq, f"the helper does not test `{Wp}[0]`")
-    clears = stmt_nodes(hg, lambda st: any(hcell(t) and is_const(v, False) for t, v in targets_values(st) if v is not None))
+    clears = stmt_nodes(hg, lambda st: any(reads_cell(t) and is_const(v, False) for t, v in targets_values(st) if v is not None))
     stores = stmt_nodes(hg, lambda st: any(any(sub0(t, w, 1) for w in Wa) and is_name(v) and v.id in Ra for t, v in targets_values(st) if v is not None))
     tT, tF = succ_on(hg, htests, "T"), succ_on(hg, htests, "F")
     wit = avoiding_path(hg, tT, [hg.exit], clears, strict=False) if tT else None
@@ -313,7 +318,7 @@ def _check_cycles(ctx, cg, M, reach_ic):
         if s.target not in reach_ic:
             ctx.ok("inline/no-other-cycle", ctx.construct(iq, s.node), f"{s.kind} -> {s.target}: does not lead back")
             continue
-        nodes = ig.ids_of(s.node)
+        nodes = nodes_of(ig, s.node)
         if s.kind == "ref" and s.target in M.helpers and nodes and all(n in M.regs for n in nodes):
             ctx.ok("inline/no-other-cycle", ctx.construct(iq, s.node), "registration edge decided by the cell propagation")
             continue
@@ -418,6 +423,8 @@ MUTANTS = [
     Mutant("mutual-recursion-behind-pause", D, "    def pause(self) -> None:\n        \"\"\"\n        Stop processing on a L{Deferred} until L{unpause}() is called.\n        \"\"\"\n        self.paused += 1\n",
            "    def pause(self) -> None:\n        self.paused += 1\n        self._notePause()\n\n    def _notePause(self) -> None:\n        if self._chainedTo is not None:\n            self._chainedTo._markWaiter()\n\n    def _markWaiter(self) -> None:\n        self._notePause()\n",
            expect_rule="no-recursion/closure"),
+    Mutant("cell-read-before-registration", D, "            result.addBoth(_gotResultInlineCallbacks, waiting, gen, status, context)  # type: ignore[attr-defined]\n            if waiting[0]:",
+           "            stillWaiting = waiting[0]\n            result.addBoth(_gotResultInlineCallbacks, waiting, gen, status, context)  # type: ignore[attr-defined]\n            if stillWaiting:", expect_rule="inline/"),
 ]
 SILENT = [
     Silent("rename-helper-params", D, "    if waiting[0]:\n        waiting[0] = False\n        waiting[1] = r\n    else:\n        _inlineCallbacks(r, gen, status, context)\n",
@@ -440,4 +447,18 @@ SILENT = [
            more=[(D, "    def _runCallbacks(self) -> None:\n        \"\"\"\n        Run the chain of callbacks once a result is available.\n",
                   "    def _dependsOn(self, other):\n        d = self._chainedTo\n        while d is not None:\n            if d is other:\n                return True\n            d = d._chainedTo\n        return False\n\n"
                   "    def _runCallbacks(self) -> None:\n        \"\"\"\n        Run the chain of callbacks once a result is available.\n")]),
+    Silent("current-variable-plus-pending-stack", D, "        chain: List[Deferred[Any]] = [self]\n\n        while chain:\n            current = chain[-1]\n",
+           "        pending: List[Deferred[Any]] = []\n        current = self\n\n        while True:\n",
+           more=[(D, "            finished = True\n            current._chainedTo = None\n", "            nextUp = None\n            current._chainedTo = None\n"),
+                 (D, "                    chain.append(chainee)\n", "                    nextUp = chainee\n"),
+                 (D, "                    finished = False\n                    break\n", "                    break\n"),
+                 (D, "            if finished:\n                # As much of the callback chain", "            if nextUp is not None:\n                pending.append(current)\n                current = nextUp\n                continue\n            if True:\n                # As much of the callback chain"),
+                 (D, "                chain.pop()\n", "                if not pending:\n                    return\n                current = pending.pop()\n")]),
+    Silent("suspend-test-through-temporary", D, "            if waiting[0]:\n                # Haven't called back yet, set flag so that we get reinvoked\n                # and return from the loop\n                waiting[0] = False\n                status.waitingOn = result  # type: ignore[assignment]\n                return\n\n            result = waiting[1]\n            # Reset waiting to initial values for next loop.  gotResult uses\n            # waiting, but this isn't a problem because gotResult is only\n            # executed once, and if it hasn't been executed yet, the return\n            # branch above would have been taken.\n\n            waiting[0] = True\n            waiting[1] = None\n",
+           "            stillWaiting = waiting[0]\n            if not stillWaiting:\n                result, waiting[1] = waiting[1], None\n                waiting[0] = True\n                continue\n            waiting[0] = False\n            status.waitingOn = result\n            return\n"),
+    Silent("helper-tests-cell-through-temporary", D, "    if waiting[0]:\n        waiting[0] = False\n        waiting[1] = r\n    else:\n        _inlineCallbacks(r, gen, status, context)\n",
+           "    armed = waiting[0]\n    if armed:\n        waiting[0] = False\n        waiting[1] = r\n        return\n    _inlineCallbacks(r, gen, status, context)\n"),
+    Silent("resume-extracted-into-helper", D, "            isFailure = isinstance(result, Failure)\n\n            if isFailure:\n                result = context.run(\n                    cast(Failure, result).throwExceptionIntoGenerator, gen\n                )\n            else:\n                result = context.run(gen.send, result)\n",
+           "            isFailure = isinstance(result, Failure)\n            result = _advance(gen, result, context)\n",
+           more=[(D, "@_extraneous\ndef _inlineCallbacks(", "def _advance(gen, outcome, context):\n    if isinstance(outcome, Failure):\n        return context.run(outcome.throwExceptionIntoGenerator, gen)\n    return context.run(gen.send, outcome)\n\n\n@_extraneous\ndef _inlineCallbacks(")]),
 ]
